@@ -47,7 +47,9 @@ def parse_dump(text):
                 fn = fn.split(" in goroutine")[0]
                 cur["frames"].append((fn, loc))
             else:
-                fn = re.sub(r"\(.*\)$", "", fn)
+                k = fn.rfind("(")
+                if k > 0 and fn.endswith(")"):
+                    fn = fn[:k]
                 cur["frames"].append((fn, loc))
         elif not l.strip():
             cur = None
